@@ -4,6 +4,7 @@ import (
 	"errors"
 	"net"
 	"strings"
+	"sync"
 )
 
 type Socks struct {
@@ -12,6 +13,9 @@ type Socks struct {
 	handler  func(s *Socks, conn net.Conn)
 	Failed   bool
 	Clients  []int32
+
+	mutex  sync.Mutex
+	closed bool
 }
 
 func NewSocks(addr string) *Socks {
@@ -36,6 +40,7 @@ func (s *Socks) Start() error {
 	var (
 		err error
 		con net.Conn
+		lst net.Listener
 	)
 
 	if s.handler == nil {
@@ -43,14 +48,24 @@ func (s *Socks) Start() error {
 	}
 
 	/* listen on the specified addr */
-	if s.listener, err = net.Listen("tcp", s.addr); err != nil {
+	if lst, err = net.Listen("tcp", s.addr); err != nil {
 		return err
 	}
+
+	/* the proxy might have been closed before we got here */
+	s.mutex.Lock()
+	if s.closed {
+		s.mutex.Unlock()
+		lst.Close()
+		return errors.New("socks proxy closed")
+	}
+	s.listener = lst
+	s.mutex.Unlock()
 
 	for {
 
 		/* accepts any new connections */
-		if con, err = s.listener.Accept(); err != nil {
+		if con, err = lst.Accept(); err != nil {
 			return err
 		}
 
@@ -61,8 +76,13 @@ func (s *Socks) Start() error {
 
 func (s *Socks) Close() {
 
-	if s.listener != nil {
-		s.listener.Close()
+	s.mutex.Lock()
+	s.closed = true
+	lst := s.listener
+	s.mutex.Unlock()
+
+	if lst != nil {
+		lst.Close()
 	}
 
 }
